@@ -530,8 +530,33 @@ fn anyver() -> impl Strategy<Value = u8> {
 fn cc_any() -> impl Strategy<Value = Cc> {
     prop_oneof![Just(*b"isom"), Just(*b"mp42"), Just(*b"vide"), any::<[u8; 4]>()]
 }
-fn text() -> impl Strategy<Value = String> {
-    prop_oneof![2 => Just(String::new()), 4 => "[ -~]{1,12}", 2 => "[^\\x00]{1,6}"]
+pub fn text() -> impl Strategy<Value = String> {
+    prop_oneof![4 => Just(String::new()), 8 => "[ -~]{1,12}", 4 => "[^\\x00]{1,6}", 1 => "[ -~]{60,300}", 2 => counted_lookalike()]
+}
+
+/// Strings that look like a counted (Pascal / QuickTime) string: the first byte equals the number
+/// of bytes that follow it, give or take a terminator. Both with an ASCII first character and
+/// with a multi-byte first character (whose lead byte then is the "count"): a decoder that sniffs
+/// for counted strings must not mangle or choke on them.
+pub fn counted_lookalike() -> impl Strategy<Value = String> {
+    let mk = |first: char, delta: usize| {
+        let mut b = [0u8; 4];
+        let enc = first.encode_utf8(&mut b);
+        let lead = enc.as_bytes()[0] as usize;
+        let follow_in_char = enc.len() - 1;
+        let mut s = String::new();
+        s.push(first);
+        let fill = lead.saturating_sub(follow_in_char).saturating_sub(delta);
+        for i in 0..fill {
+            s.push((b'a' + (i % 26) as u8) as char);
+        }
+        s
+    };
+    prop_oneof![
+        ((0x21u32..0x7f), 0usize..3).prop_map(move |(c, d)| mk(char::from_u32(c).unwrap(), d)),
+        ((0xa0u32..0x800), 0usize..3).prop_map(move |(c, d)| mk(char::from_u32(c).unwrap(), d)),
+        (prop_oneof![Just(0x20acu32), Just(0x3042u32), Just(0x1f600u32)], 0usize..3).prop_map(move |(c, d)| mk(char::from_u32(c).unwrap(), d)),
+    ]
 }
 fn bytes(max: usize) -> impl Strategy<Value = Vec<u8>> {
     prop::collection::vec(any::<u8>(), 0..=max)
